@@ -1978,7 +1978,22 @@ class _GroupElem(ABC):
 
         # Retrieve the elements associated with these nodes
         all_elements = self.Get_Elements_Nodes(closest_nodes, exclusively=False)
-        unique_elements = np.unique(all_elements)
+
+        # The element holding a coordinate need not touch its closest node (stretched elements):
+        # add every element whose bounding sphere holds one of the coordinates.
+        coord_e = self.coord[self._global_to_local_nodes[self.connect]]
+        center_e = coord_e.mean(1)
+        radius_e = np.linalg.norm(coord_e - center_e[:, np.newaxis], axis=-1).max(1)
+        radius_e *= 1 + 1e-6
+        inRange_n = spatial.KDTree(center_e).query_ball_point(
+            np.asarray(coordinates_n, dtype=float), radius_e.max()
+        )
+        points = np.repeat(np.arange(len(inRange_n)), [len(idx) for idx in inRange_n])
+        elems = np.concatenate([np.asarray(idx, dtype=int) for idx in inRange_n])
+        dist = np.linalg.norm(coordinates_n[points] - center_e[elems], axis=-1)
+        inSphere = elems[dist <= radius_e[elems]]
+
+        unique_elements = np.unique(np.concatenate((all_elements, inSphere)))
 
         return unique_elements
 
